@@ -13,8 +13,9 @@
 using namespace vf;
 
 static const int N = 1024, NIN = 8;
-enum { OP_BOOT = 11, OP_FFTPROD = 12, OP_LAGR = 13, OP_CHURN = 14, OP_YIELD = 15, OP_RESPAWN = 16, OP_WOKS = 17, OP_BOOTK = 18, OP_MODSWITCH = 19, OP_KARATSUBA = 20 };
-static const char *opname(int k) { return k <= 10 ? GATES[k].name : k == OP_BOOT ? "bootstrap_FFT" : k == OP_FFTPROD ? "fft-product" : k == OP_LAGR ? "lagrange-ops" : k == OP_CHURN ? "heap-churn" : k == OP_YIELD ? "yield" : k == OP_RESPAWN ? "respawn" : k == OP_BOOTK ? "bootstrap_FFT-under-another-key-set" : k == OP_MODSWITCH ? "modulus-switch-loop-other-M" : k == OP_KARATSUBA ? "karatsuba-product" : "bootstrap_woKS_FFT"; }
+enum { OP_BOOT = 11, OP_FFTPROD = 12, OP_LAGR = 13, OP_CHURN = 14, OP_YIELD = 15, OP_RESPAWN = 16, OP_WOKS = 17, OP_BOOTK = 18, OP_MODSWITCH = 19, OP_KARATSUBA = 20, OP_BURST = 21 };
+static bool g_sequential = false; // set in reference processes: bursts run one thread at a time
+static const char *opname(int k) { return k <= 10 ? GATES[k].name : k == OP_BOOT ? "bootstrap_FFT" : k == OP_FFTPROD ? "fft-product" : k == OP_LAGR ? "lagrange-ops" : k == OP_CHURN ? "heap-churn" : k == OP_YIELD ? "yield" : k == OP_RESPAWN ? "respawn" : k == OP_BOOTK ? "bootstrap_FFT-under-another-key-set" : k == OP_MODSWITCH ? "modulus-switch-loop-other-M" : k == OP_KARATSUBA ? "karatsuba-product" : k == OP_BURST ? "burst-of-short-lived-FFT-threads" : "bootstrap_woKS_FFT"; }
 
 struct Shared { KeySet *K; LweSample *in; BKey *extra[2]; };
 
@@ -70,6 +71,21 @@ static uint64_t do_op(const Shared &S, const int64_t *op) {
         delete_IntPolynomial(a); delete_TorusPolynomial(b); delete_TorusPolynomial(r);
         return h;
     }
+    if (kind == OP_BURST) { // short-lived threads that each make one FFT product and exit; creations overlap exits (sliding window of 1..16 live threads, or all at once)
+        static const int WS[] = {1, 2, 4, 8, 16, 64, 64, 3};
+        const int m = 6 + (int)(op[1] % 43), W = g_sequential ? 1 : WS[op[3] % 8];
+        const int R = 1 + (int)(op[2] % 6); // rounds
+        std::vector<uint64_t> hs((size_t)m * R, 0);
+        for (int r = 0; r < R; r++) {
+            std::vector<std::thread> th;
+            for (int j = 0; j < m; j++) {
+                if (j >= W) th[j - W].join();
+                th.emplace_back([&, j, r]() { int64_t o[4] = {OP_FFTPROD, op[2] * 131 + j + 1000 * r, j, j / 4}; hs[(size_t)r * m + j] = do_op(S, o); });
+            }
+            for (int j = std::max(0, m - W); j < m; j++) th[j].join();
+        }
+        return hash_words(hs.data(), hs.size() * 8, 23);
+    }
     if (kind == OP_FFTPROD) { // product of thread-private polynomials, unrelated to the key
         IntPolynomial *a = new_IntPolynomial(N); TorusPolynomial *b = new_TorusPolynomial(N), *r = new_TorusPolynomial(N);
         fill_int(a->coefs, N, 512, (int)(op[2] % 4), (uint64_t)op[1]); fill_torus((uint32_t *)b->coefsT, N, (int)(op[3] % 4), (uint64_t)op[1] + 1);
@@ -99,7 +115,7 @@ static uint64_t do_op(const Shared &S, const int64_t *op) {
     if (kind == OP_YIELD) { if (op[1] % 3 == 0) std::this_thread::yield(); else std::this_thread::sleep_for(std::chrono::microseconds(op[1] % 2000)); return 0; }
     return 0;
 }
-static bool has_output(int kind) { return kind <= 13 || kind == OP_WOKS || kind == OP_BOOTK || kind == OP_MODSWITCH || kind == OP_KARATSUBA; }
+static bool has_output(int kind) { return kind <= 13 || kind == OP_WOKS || kind == OP_BOOTK || kind == OP_MODSWITCH || kind == OP_KARATSUBA || kind == OP_BURST; }
 
 static std::map<std::vector<int64_t>, uint64_t> g_ref;
 // Reference = the operation alone in a *fresh process image* (forked from a parent that has never evaluated anything) on a fresh thread:
@@ -114,6 +130,7 @@ static uint64_t reference(const Shared &S, const std::vector<int64_t> &op) {
     pid_t pid = fork();
     if (pid == 0) {
         close(fd[0]);
+        g_sequential = true;
         mallopt(M_PERTURB, 0x11); // reference and workload processes fill fresh / freed heap blocks with different bytes: an uninitialised read cannot agree by accident
         uint64_t hh = 0;
         std::thread t([&]() { hh = do_op(S, op.data()); });
@@ -144,7 +161,8 @@ static std::string run_case(const J &c, std::string &sig) {
     S.in[7].b = (int32_t)(MU8 - (uint32_t)S.in[6].b);
     BCfg c1; c1.n = 16; c1.k = 1; c1.l = 3; c1.Bgbit = 7; c1.t = 15; c1.bb = 1; c1.a_in = 1e-9; c1.a_bk = 1e-9; c1.seed = keyseed + 7;
     BCfg c2; c2.n = 10; c2.k = 1; c2.l = 2; c2.Bgbit = 10; c2.t = 4; c2.bb = 4; c2.a_in = 1e-9; c2.a_bk = 1e-9; c2.seed = keyseed + 8;
-    S.extra[0] = &get_bkey(c1, 2); S.extra[1] = &get_bkey(c2, 2);
+    if (c["key_on_thread"].i()) { c1.seed += 1000; c2.seed += 1000; std::thread t([&]() { S.extra[0] = &get_bkey(c1, 2); S.extra[1] = &get_bkey(c2, 2); }); t.join(); }
+    else { S.extra[0] = &get_bkey(c1, 2); S.extra[1] = &get_bkey(c2, 2); }
     g_ref.clear();
     const J &threads = c["threads"];
     const int T = (int)threads.size();
@@ -239,14 +257,16 @@ int main(int argc, char **argv) {
     H.classify = [](const J &c) { int T = (int)c["threads"].size(); return std::string("T") + (T == 1 ? "1" : T <= 4 ? "2-4" : T <= 16 ? "5-16" : "17-64") + (c["key_on_thread"].i() ? "_keyFromExitedThread" : "") + (c["keygen_thread"].i() ? "_withKeygenThread" : ""); };
     if (H.mode == "replay") return H.replay(A.s("replay"));
     const uint64_t kseed = A.u("keyseed", 1);
+    const bool offmain = A.i("offmain", 0) != 0; // every key is generated on helper threads that exit: the harness thread itself never runs an FFT
+    const int burstw = (int)A.i("burstw", 3); // generator weight of the thread-churn operation
     const int maxT = (int)A.i("maxT", 64), maxops = (int)A.i("maxops", 4), lambda = (int)A.i("lambda", 128);
     H.rc_loop("C06 concurrent / history-laden evaluation is byte-identical to a fresh sequential reference", [&]() {
         J c = J::object();
         int T = *rc::gen::weightedElement<int>({{2, 1}, {3, 2}, {2, 3}, {3, 4}, {3, 8}, {2, 16}, {1, 32}, {1, 64}});
         if (T > maxT) T = maxT;
-        c.set("lambda", lambda).set("keyseed", kseed).set("seed", *genSeed()).set("key_on_thread", *rc::gen::weightedElement<int>({{3, 0}, {1, 1}})).set("keygen_thread", *rc::gen::weightedElement<int>({{3, 0}, {1, 1}}));
+        c.set("lambda", lambda).set("keyseed", kseed).set("seed", *genSeed()).set("key_on_thread", offmain ? 1 : *rc::gen::weightedElement<int>({{3, 0}, {1, 1}})).set("keygen_thread", *rc::gen::weightedElement<int>({{3, 0}, {1, 1}}));
         J threads = J::array();
-        auto opgen = rc::gen::map(rc::gen::tuple(rc::gen::weightedElement<int>({{6, 0}, {1, 1}, {2, 2}, {3, 3}, {1, 4}, {1, 5}, {1, 6}, {1, 7}, {1, 8}, {1, 9}, {4, 10}, {3, OP_BOOT}, {2, OP_WOKS}, {4, OP_BOOTK}, {2, OP_MODSWITCH}, {3, OP_KARATSUBA}, {4, OP_FFTPROD}, {3, OP_LAGR}, {4, OP_CHURN}, {2, OP_YIELD}, {2, OP_RESPAWN}}),
+        auto opgen = rc::gen::map(rc::gen::tuple(rc::gen::weightedElement<int>({{6, 0}, {1, 1}, {2, 2}, {3, 3}, {1, 4}, {1, 5}, {1, 6}, {1, 7}, {1, 8}, {1, 9}, {4, 10}, {3, OP_BOOT}, {2, OP_WOKS}, {4, OP_BOOTK}, {2, OP_MODSWITCH}, {3, OP_KARATSUBA}, {burstw, OP_BURST}, {4, OP_FFTPROD}, {3, OP_LAGR}, {4, OP_CHURN}, {2, OP_YIELD}, {2, OP_RESPAWN}}),
                                                  rng<int>(0, 100000), rng<int>(0, 7), rng<int>(0, 7)),
                                   [](std::tuple<int, int, int, int> t) { return std::vector<int64_t>{std::get<0>(t), std::get<1>(t), std::get<2>(t), std::get<3>(t)}; });
         int budget = T <= 4 ? maxops : T <= 16 ? std::max(2, maxops - 1) : 2;
